@@ -8,6 +8,7 @@ import (
 	"compress/flate"
 	"fmt"
 	"hash/crc32"
+	"io"
 	"strings"
 	"testing"
 	"time"
@@ -37,6 +38,49 @@ type c19Case struct {
 	Want    string     `json:"want,omitempty"` // expected media type for ooxml/odf kinds
 	Prev    []c19Entry `json:"prev,omitempty"` // another archive that went through the caller's buffer just before
 	Pinned  bool       `json:"pinned,omitempty"` // a pinned known-finding case: never excluded
+	// Zip64: the first entry is re-written the way "always Zip64" writers do it (Python zipfile with
+	// force_zip64, commons-compress Zip64Mode.Always): sizes 0xFFFFFFFF in the local header, the real
+	// ones in a Zip64 extra field
+	Zip64 bool `json:"zip64,omitempty"`
+}
+
+// c19ForceZip64 rewrites the first local header of raw (which must carry its sizes, i.e. no data
+// descriptor) into the Zip64 form and fixes the offsets of the central directory.
+func c19ForceZip64(raw []byte) []byte {
+	if len(raw) < 30 || string(raw[:4]) != "PK\x03\x04" || raw[6]&0x08 != 0 {
+		return nil
+	}
+	le16 := func(b []byte) int { return int(b[0]) | int(b[1])<<8 }
+	le32 := func(b []byte) uint32 { return uint32(b[0]) | uint32(b[1])<<8 | uint32(b[2])<<16 | uint32(b[3])<<24 }
+	put32 := func(b []byte, v uint32) { b[0], b[1], b[2], b[3] = byte(v), byte(v>>8), byte(v>>16), byte(v>>24) }
+	nl, el := le16(raw[26:]), le16(raw[28:])
+	csize, usize := le32(raw[18:]), le32(raw[22:])
+	end := 30 + nl + el
+	if end > len(raw) {
+		return nil
+	}
+	ext := []byte{0x01, 0x00, 0x10, 0x00, byte(usize), byte(usize >> 8), byte(usize >> 16), byte(usize >> 24), 0, 0, 0, 0, byte(csize), byte(csize >> 8), byte(csize >> 16), byte(csize >> 24), 0, 0, 0, 0}
+	out := append([]byte(nil), raw[:end]...)
+	out = append(out, ext...)
+	out = append(out, raw[end:]...)
+	out[4], out[5] = 45, 0
+	put32(out[18:], 0xFFFFFFFF)
+	put32(out[22:], 0xFFFFFFFF)
+	out[28], out[29] = byte(el+20), byte((el+20)>>8)
+	// central directory: local header offsets of the later entries, and the directory's own offset
+	eocd := bytes.LastIndex(out, []byte("PK\x05\x06"))
+	if eocd < 0 || eocd+22 > len(out) {
+		return nil
+	}
+	cd := int(le32(out[eocd+16:])) + 20
+	put32(out[eocd+16:], uint32(cd))
+	for p := cd; p+46 <= eocd && string(out[p:p+4]) == "PK\x01\x02"; {
+		if off := le32(out[p+42:]); off > 0 {
+			put32(out[p+42:], off+20)
+		}
+		p += 46 + le16(out[p+28:]) + le16(out[p+30:]) + le16(out[p+32:])
+	}
+	return out
 }
 
 func c19Build(es []c19Entry) ([]byte, error) {
@@ -170,6 +214,10 @@ func c19GenEntry(t *rapid.T, name string) c19Entry {
 
 func c19Gen(t *rapid.T) c19Case {
 	c := c19GenOne(t)
+	// (not the `mimetype` entry of OpenDocument / EPUB packages: their specifications forbid an extra field there)
+	if !c.Entries[0].Stream && c.Kind != "odf" && rapid.IntRange(0, 5).Draw(t, "zip64") == 0 {
+		c.Zip64 = true
+	}
 	if rapid.Bool().Draw(t, "withprev") {
 		c.Prev = c19GenOne(t).Entries
 	}
@@ -282,13 +330,56 @@ var c19Shared []byte
 
 func c19Check(c c19Case) vfResult {
 	var r vfResult
+	if c.Kind == "empty" {
+		var buf bytes.Buffer
+		w := azip.NewWriter(&buf)
+		if c.Want != "" {
+			w.SetComment(c.Want)
+		}
+		w.Close()
+		raw := buf.Bytes()
+		m := vfDetectAt(raw, 0)
+		r.Nontrivial, r.Labels, r.Hash = true, []string{"empty-archive"}, vfHash(raw)
+		if m.String() != "application/zip" || m.Parent() == nil || m.Parent().String() != "application/octet-stream" {
+			r.Err = fmt.Errorf("an archive without entries (%d bytes, comment %q) is reported as %s instead of plain application/zip", len(raw), c.Want, vfChainStr(m))
+		} else if err := vfRoutes(raw, 0, m); err != nil {
+			r.Err = err
+		}
+		return r
+	}
 	raw, err := c19Build(c.Entries)
 	if err != nil {
 		return vfFailf("generator bug: zip writer: %v", err)
 	}
+	if c.Zip64 {
+		z := c19ForceZip64(raw)
+		if z == nil {
+			return vfResult{Skip: "zip64-needs-sizes-in-the-first-local-header"}
+		}
+		raw = z
+		r.Labels = append(r.Labels, "first-entry-zip64")
+	}
 	zr, err := azip.NewReader(bytes.NewReader(raw), int64(len(raw)))
 	if err != nil {
 		return vfFailf("generator bug: archive/zip cannot read back its own archive: %v", err)
+	}
+	if c.Zip64 {
+		// the rewritten archive must still be a good one: every entry opens and has its content
+		for i, f := range zr.File {
+			rc, err := f.Open()
+			if err != nil {
+				return vfFailf("generator bug: entry %d of the Zip64-rewritten archive does not open: %v", i, err)
+			}
+			b, err := io.ReadAll(rc)
+			rc.Close()
+			want := []byte(c.Entries[i].Body)
+			if strings.HasSuffix(c.Entries[i].Name, "/") {
+				want = nil
+			}
+			if err != nil || !bytes.Equal(b, want) {
+				return vfFailf("generator bug: entry %d of the Zip64-rewritten archive reads back wrongly (%v)", i, err)
+			}
+		}
 	}
 	var names []string
 	for _, f := range zr.File {
@@ -512,6 +603,19 @@ func c19Check(c c19Case) vfResult {
 func TestVerif_C19(t *testing.T) {
 	defer vfStats.dump()
 	vfStats.Property = "C19"
+	if vfOnlySub("empty") && !vfReplayMode() && vfShard() == 0 {
+		// archives without entries (a writer that was closed at once), with and without a comment:
+		// no marker, hence plain application/zip
+		for _, comment := range []string{"", "created by verif", strings.Repeat("c", 300)} {
+			c := c19Case{Kind: "empty", Want: comment}
+			r := c19Check(c)
+			vfStats.record(r, func() any { return map[string]any{"sub": "empty", "comment_len": len(comment)} })
+			if r.Err != nil {
+				vfEnumFail(t, "C19", "gen", c, r.Err)
+				return
+			}
+		}
+	}
 	if !vfDictSweep(t, "C19", "gen", vfDictLits, func(tok string) []c19Case {
 		name := strings.Map(func(r rune) rune {
 			if r < 0x20 || r > 0x7e || r == '\\' {
